@@ -6,7 +6,7 @@
    [lookup0 M c] is the kept mapping of code c: its glyph, or 0 when c is not kept. *)
 From AV Require Import Base.Prelude Gen.CmapPrefs Model.MacRoman Model.Cmap Model.CmapSpec Model.CmapSubset
   Proofs.CmapProofs Proofs.CmapSubsetProofs Proofs.CmapWriteProofs Proofs.CmapKeepProofs Proofs.CmapSubsetTop
-  Proofs.CmapSubsetLift.
+  Proofs.CmapSubsetLift Proofs.CmapFormat2Proofs Proofs.CmapSubsetFormat2.
 Open Scope Z_scope.
 
 (* ---- 1. which mappings are kept (MappingsToKeep::new) ---------------------------------------- *)
@@ -275,4 +275,48 @@ Example ex_subset_end_to_end_unicode :
   | Ok out => (charmap_info out, font_lookup out None 256, font_lookup out None 257, font_lookup out None 258)
   | _ => (Err OtherErr, Err OtherErr, Err OtherErr, Err OtherErr)
   end = (Ok (EUnicode, 12), Ok 0, Ok 2, Ok 0).
+Proof. vm_compute. reflexivity. Qed.
+
+(* ---- format 2 sources (legacy Big5 / Shift-JIS fonts; also accepted under every other encoding) ------- *)
+
+(* What MappingsToKeep::new is fed by mappings_fn on a format 2 sub-table is what the single lookup
+   (Font::lookup_glyph_index -> map_glyph) gives: for EVERY format 2 sub-table whose 256 subHeaderKeys
+   are multiples of 8 with key 0 for byte 0 and whose firstCode fields are not negative, whatever the
+   sub-headers, offsets, idDelta and glyph arrays hold, and also when the enumeration fails half way. *)
+Theorem C08_format2_enumeration_sound : forall l keys headers scope c g,
+  forall (Hkeys : f2_keys_wf keys) (Hfirst : f2_first_codes_nonneg headers)
+         (Hin : In (c, g) (fst (mappings (F2 l keys headers scope)))),
+  map_glyph (F2 l keys headers scope) c = Ok (Some g).
+Proof. exact f2_mappings_sound. Qed.
+Print Assumptions C08_format2_enumeration_sound.
+
+(* a glyphIndexArray entry 0 is the missing glyph, never idDelta ... *)
+Theorem C08_format2_hole_is_glyph0 : forall sh key scope idx arr,
+  forall (Harr : glyph_index_sub_array sh key scope = Ok arr) (Hzero : get arr idx = Some 0),
+  f2_glyph sh key scope idx = Ok 0.
+Proof. exact f2_glyph_hole. Qed.
+Print Assumptions C08_format2_hole_is_glyph0.
+
+(* ... and a pair whose glyph is 0 is never kept *)
+Theorem C08_keep_ignores_glyph0 : forall enc sfc ids target st ch,
+  keep_step enc sfc ids target st (ch, 0) = st.
+Proof. exact keep_step_glyph0. Qed.
+Print Assumptions C08_keep_ignores_glyph0.
+
+(* non-vacuity: C06's witness table (single bytes 0x20..0x7F; lead byte 0x81, firstCode 0x41, idDelta 5,
+   glyphIndexArray [300; 0]) enumerates 0x8141 -> 305 and the hole 0x8142 -> 0 (not 5); with glyph 5 and 305
+   retained, only 0x8141 is kept *)
+Example ex_format2_enumeration :
+  (existsb (fun p => (fst p =? 33089) && (snd p =? 305)) (fst (mappings ex2)),
+   existsb (fun p => (fst p =? 33090) && (snd p =? 0)) (fst (mappings ex2)),
+   existsb (fun p => (fst p =? 33090) && negb (snd p =? 0)) (fst (mappings ex2)),
+   map_glyph ex2 33090) = (true, true, false, Ok (Some 0)).
+Proof. vm_compute. reflexivity. Qed.
+Example ex_format2_keys_wf :
+  (len ex2_keys, forallb (fun k => (0 <=? k) && (k mod 8 =? 0)) ex2_keys, get ex2_keys 0) = (256, true, Some 0).
+Proof. vm_compute. reflexivity. Qed.
+Example ex_format2_keep :
+  fst (fold_left (keep_step EUnicode None [0; 5; 305] TUnrestricted)
+                 (filter (fun p => 33000 <=? fst p) (fst (mappings ex2))) ([], XMacRoman))
+  = [(CUnicode 33089, 305)].
 Proof. vm_compute. reflexivity. Qed.
